@@ -5,7 +5,7 @@
    header (length field pointing to the end of that attribute) and everything before it. *)
 From Coq Require Import List Arith NArith Bool.
 From Coq.Strings Require Import Byte.
-From EZK Require Import Gen.Tables Lib.Bytes Model.C20 Proofs.C20 Model.C20p.
+From EZK Require Import Model.Forms8 Proofs.Forms8 Gen.Tables Lib.Bytes Model.C20 Proofs.C20 Model.C20p.
 Import ListNotations.
 Close Scope N_scope.
 Open Scope nat_scope.
@@ -111,3 +111,14 @@ Proof. reflexivity. Qed.
 
 Theorem C20_no_entry_outlives_the_call : stun_cleanup_by_guard = true -> forall e, pending_after e = 0%nat.
 Proof. intros G e. unfold pending_after. rewrite G. now destruct e. Qed.
+
+(* demultiplexing: a datagram that is exactly the 20-byte header is long enough to be looked at (a Binding request or indication
+   without attributes is a complete message); demanding more than the header would send it to the SIP parser *)
+Theorem C20_header_len_guard : stun_header_len = 20%N /\ stun_header_len_suffices = true.
+Proof. split; reflexivity. Qed.
+
+Theorem C20_header_only_long_enough : stun_header_len_suffices = true -> forall n, long_enough n = true <-> (stun_header_len <= n)%N.
+Proof. exact long_enough_iff. Qed.
+
+Theorem C20_header_only_too_short_refuted : long_enough_form false stun_header_len = false.
+Proof. exact header_too_short_otherwise. Qed.
